@@ -229,8 +229,16 @@ type linForm struct {
 	okay bool
 }
 
-func linOf(info *types.Info, e ast.Expr) linForm {
+func linOf(info *types.Info, body ast.Node, e ast.Expr) linForm {
 	e = ast.Unparen(e)
+	if id, isID := e.(*ast.Ident); isID && body != nil {
+		// an offset hoisted into a local: use its definition when that is itself linear, otherwise the name is an atom
+		if d := resolveLocal(info, body, id); d != ast.Expr(id) {
+			if lf := linOf(info, body, d); lf.okay {
+				return lf
+			}
+		}
+	}
 	if v, ok := core.ConstInt(info, e); ok {
 		return linForm{c: map[string]int64{}, k: v, okay: true}
 	}
@@ -238,7 +246,7 @@ func linOf(info *types.Info, e ast.Expr) linForm {
 	case *ast.Ident:
 		return linForm{c: map[string]int64{x.Name: 1}, okay: true}
 	case *ast.BinaryExpr:
-		a, b := linOf(info, x.X), linOf(info, x.Y)
+		a, b := linOf(info, body, x.X), linOf(info, body, x.Y)
 		if !a.okay || !b.okay {
 			return linForm{}
 		}
@@ -379,10 +387,10 @@ func c08Population(r *core.Run, p *core.Prog) {
 				switch a := ast.Unparen(c.Args[0]).(type) {
 				case *ast.SliceExpr:
 					ps.column = colOf(a.X)
-					ps.lo, ps.hi = linOf(info, a.Low), linOf(info, a.High)
+					ps.lo, ps.hi = linOf(info, f.Decl.Body, a.Low), linOf(info, f.Decl.Body, a.High)
 				case *ast.IndexExpr:
 					ps.column = colOf(a.X)
-					ps.lo = linOf(info, a.Index)
+					ps.lo = linOf(info, f.Decl.Body, a.Index)
 					ps.hi = linForm{c: ps.lo.c, k: ps.lo.k + 1, okay: ps.lo.okay}
 				}
 				if len(c.Args) == 2 && flag == "" {
@@ -538,10 +546,12 @@ func c08RowAccounting(r *core.Run, p *core.Prog) {
 	var val, count, rows types.Object
 	cl := func(n ast.Node, cond *bool) []ev {
 		var out []ev
-		if a, ok := n.(*ast.AssignStmt); ok && len(a.Lhs) == 1 && len(a.Rhs) == 1 {
-			if c, ok := a.Rhs[0].(*ast.CallExpr); ok {
-				if _, m := core.MethodCall(info, c); m == "Val" {
-					val = core.ObjOf(info, a.Lhs[0])
+		if a, ok := n.(*ast.AssignStmt); ok && len(a.Lhs) == len(a.Rhs) {
+			for i := range a.Lhs {
+				if c, ok := a.Rhs[i].(*ast.CallExpr); ok {
+					if _, m := core.MethodCall(info, c); m == "Val" {
+						val = core.ObjOf(info, a.Lhs[i])
+					}
 				}
 			}
 		}
